@@ -7,6 +7,7 @@ import (
 	"bytes"
 	"fmt"
 	"os"
+	"strings"
 	"testing"
 
 	"github.com/libsv/go-bt/v2"
@@ -81,6 +82,22 @@ func check(ctx *pbt.Ctx, c Case) error {
 		ctx.Label("digest=forkid-flag")
 	} else {
 		ctx.Label("digest=legacy-flag")
+	}
+	if i := strings.IndexByte(c.Desc, '/'); i >= 0 { // shape decorations of the generated program
+		for _, d := range strings.Split(c.Desc[:i], "+")[1:] {
+			ctx.Label("shape=+" + d)
+		}
+		if strings.Contains(c.Desc[:i], "+unlock-checksig") {
+			both := 0
+			for _, so := range r.SigOps {
+				if so.Outcome == "true" {
+					both++
+				}
+			}
+			if both >= 2 {
+				ctx.Label("shape=unlock-checksig-and-lock-sigop-both-true")
+			}
+		}
 	}
 	nontrivial := false
 	for _, so := range r.SigOps {
